@@ -1132,7 +1132,7 @@ func (fr *Frame) checkInvariant(li *loopInfo, from *ssa.BasicBlock, cond string,
 			vc.specError(fr.fn, cl, err)
 			continue
 		}
-		name := fmt.Sprintf("%s/inv-%s/loop#%d.%d/from-b%d", fnName(fr.fn), which, li.ordinal, i+1, fr.edgeOrdinal(li, from, which))
+		name := fmt.Sprintf("%s/inv-%s/loop#%d:%s/edge%d", fnName(fr.fn), which, li.ordinal, clauseId(cl, i), fr.edgeOrdinal(li, from, which))
 		if fr.path != "" {
 			name += "@" + fr.path
 		}
